@@ -627,3 +627,9 @@ package main
 //@   atcall (*database/sql.Tx).Commit requires (tx2 *sql.Tx) :: !ghostSyncStepFailed   #C15.no-commit-after-a-failed-step @C15
 //@   atcall (*database/sql.Tx).Commit requires (tx2 *sql.Tx) :: tx2 == ghostSyncTx && ghostSyncClearedProfiles && ghostSyncClearedSigned   #C15.commit-replaces-both-tables @C15
 //@ callers database/sql.DB).Exec only initializeSQLitetables, initDBPostgres  #C15.no-direct-exec-outside-schema-setup @C15
+// ... and once the key line is accepted, the only refusal that depends on the key type is the one for an Ed25519
+// key when no Ed25519 CA is loaded ("key type not allowed", 422): every other offered type is certified
+//@ ghost var ghostSSHKeyType string
+//@ func (*RuntimeState).postAuthSSHCertHandler
+//@   atcall golang.org/x/crypto/ssh.PublicKey).Type sets ghostSSHKeyType string (k ssh.PublicKey, name string) :: name
+//@   atcall (*RuntimeState).writeFailureResponse requires (s2 *RuntimeState, w2 http.ResponseWriter, r2 *http.Request, code int, msg string) :: code == 422 ==> ghostSSHKeyType == "ssh-ed25519" && state.Ed25519Signer == nil   #C19.only-ed25519-can-be-refused-by-type @C19
